@@ -5,8 +5,11 @@
 #include <asam_cmp/can_payload.h>
 #include <asam_cmp/decoder.h>
 #include <asam_cmp/interface_payload.h>
+#include <asam_cmp/capture_module_payload.h>
 #include <asam_cmp/lin_payload.h>
+#include <asam_cmp/tecmp_capture_module_payload.h>
 #include <new>
+#include <string>
 #include "verif.h"
 using namespace ASAM::CMP;
 
@@ -28,6 +31,67 @@ using namespace ASAM::CMP;
 #define P (N >= 28 ? N - 28 : 0)  // bytes following the 28-byte TECMP header
 #define MAXE (P / 12 + 1)
 using Packets = std::vector<std::shared_ptr<Packet>>;
+
+#if defined(VP_CBMC) && MT == 1 && N < 64
+// Shapes with a capture-module status payload shorter than its 36-byte fixed part: the conversion (which needs
+// std::stringstream, libstdc++.so, no IR) must not be attempted at all. It is cut and reaching it is the violation;
+// natively the real converter runs and ASan sees the out-of-bounds reads.
+#include <asam_cmp/tecmp_converter.h>
+std::shared_ptr<ASAM::CMP::Packet> TECMP::Converter::ConvertCaptureModulePayload(TECMP::CmpHeader&, const std::shared_ptr<TECMP::Payload>&)
+{
+    vp_assert(false, "C02: a capture-module status shorter than its fixed part is handed to the converter (out-of-bounds field reads)");
+    vp_assert(false, "C15: a capture-module status shorter than its fixed part is handed to the converter");
+    return nullptr;
+}
+#endif
+#if defined(VP_CBMC) && MT == 1 && N >= 64
+// std::stringstream lives in libstdc++.so (no IR). The two formatting helpers of the TECMP capture-module payload are
+// replaced by equivalents that read the same header fields through the same getters (so CBMC's bounds checks still apply)
+// and build "v<major>.<minor>[.<patch>]" with std::string (instantiated from the headers in the "str" variant).
+std::string TECMP::CaptureModulePayload::getSwVersion() const
+{
+    std::string s = "v";
+    s += std::to_string(getSwVersionMajor());
+    s += ".";
+    s += std::to_string(getSwVersionMinor());
+    s += ".";
+    s += std::to_string(getSwVersionPatch());
+    return s;
+}
+std::string TECMP::CaptureModulePayload::getHwVersion() const
+{
+    std::string s = "v";
+    s += std::to_string(getHwVersionMajor());
+    s += ".";
+    s += std::to_string(getHwVersionMinor());
+    return s;
+}
+#endif
+
+// decimal rendering, written independently
+static unsigned renderDec(uint32_t v, char* out)
+{
+    char tmp[10];
+    unsigned n = 0;
+    do
+    {
+        tmp[n++] = static_cast<char>('0' + v % 10);
+        v /= 10;
+    } while (v != 0 && n < 10);
+    for (unsigned i = 0; i < n; ++i)
+        out[i] = tmp[n - 1 - i];
+    return n;
+}
+static bool svIs(std::string_view v, const char* s, unsigned n)
+{
+    if (v.size() != n)
+        return false;
+    bool eq = true;
+    for (unsigned i = 0; i < 16; ++i)
+        if (i < n)
+            eq = eq && v[i] == s[i];
+    return eq;
+}
 static uint8_t g_f[N + 1];
 static uint64_t g_sink;
 
@@ -103,6 +167,42 @@ VP_HARNESS(h_tecmp)
     if (msgType != 1 && msgType != 2 && msgType != 3)
     {
         vp_assert(cnt == 0, "C15: unsupported message kinds yield no packet");
+        return;
+    }
+    if (msgType == 1)
+    {
+        // capture-module status: 36-byte payload (12 generic bytes + 24 bytes of vendor data)
+        if (P < 36)
+        {
+            vp_assert(cnt == 0, "C15: a capture-module status shorter than its fixed part yields no packet");
+            return;
+        }
+        vp_assert(cnt == 1, "C15: a well-formed capture-module status yields one packet");
+        if (cnt != 1)
+            return;
+        const Packet& p = *(*ps)[0];
+        vp_assert(p.getDeviceId() == vp_be16(f) && p.getTimestamp() == vp_be64(f + 16), "C15: device id and timestamp equal the TECMP header fields");
+        vp_assert(p.getPayload().getType().getType() == PayloadType::cmStatMsg, "C15: capture-module status yields a capture-module status payload");
+        const CaptureModulePayload& cm = static_cast<const CaptureModulePayload&>(p.getPayload());
+        char dec[16];
+        const unsigned n = renderDec(vp_be32(pl + 8), dec);
+        vp_assert(svIs(cm.getSerialNumber(), dec, n), "C15: serial number string is the decimal rendering of the big-endian serial number");
+        char ver[16];
+        unsigned k = 0;
+        ver[k++] = 'v';
+        k += renderDec(pl[16], ver + k);
+        ver[k++] = '.';
+        k += renderDec(pl[17], ver + k);
+        vp_assert(svIs(cm.getHardwareVersion(), ver, k), "C15: hardware version string is v<major>.<minor> of the TECMP fields");
+        k = 0;
+        ver[k++] = 'v';
+        k += renderDec(pl[13], ver + k);
+        ver[k++] = '.';
+        k += renderDec(pl[14], ver + k);
+        ver[k++] = '.';
+        k += renderDec(pl[15], ver + k);
+        vp_assert(svIs(cm.getSoftwareVersion(), ver, k), "C15: software version string is v<major>.<minor>.<patch> of the TECMP fields");
+        vp_assert(cm.getDeviceDescription().size() == 0 && cm.getVendorDataLength() == 0, "C15: no description and no vendor data are invented");
         return;
     }
     if (msgType == 3)
